@@ -17,6 +17,7 @@ def check_C20(res, tier, seed, replay):
         vals = [1, 2, 3, 5, 16, 24]
         hist = [[str(a), 'R'] for a in vals]
         hist += [[str(a), 'R', str(b), 'R'] for a in vals for b in vals if a != b][::(3 if tier == 'quick' else 1)]
+        hist += [[str(a), 'R', str(a), 'R', str(b), 'R', str(a), 'R'] for a, b in ((1, 3), (5, 2), (16, 24), (24, 3))]      # same value twice, back and forth
         hist += [[str(rng.choice(vals)) if rng.random() < 0.6 else 'R' for _ in range(8)] for _ in range(10 if tier == 'quick' else 100)]
         trace = os.path.join(wd, 'conc.ndjson')
         with open(trace, 'w') as out:
